@@ -1281,7 +1281,7 @@ def preprocess_spectra(flux, ivar, loglam=None, zfit=None, aesthetics='mean',
     else:
         if newloglam is None:
             igood = loglam != 0
-            dloglam = loglam[1] - loglam[0]
+            dloglam = loglam.flat[1] - loglam.flat[0]
             logmin = loglam[igood].min() - logshift.max()
             logmax = loglam[igood].max() - logshift.min()
             if wavemin is not None:
